@@ -12,7 +12,7 @@ for l in p.stdout.splitlines():
         e = json.loads(l)
     except Exception:
         continue
-    if e.get('Action') == 'pass' and e.get('Test') and '/' not in e['Test']:
+    if e.get('Action') == 'pass' and e.get('Test'):
         passed.add(e['Package'] + '::' + e['Test'])
 missing = sorted(stable - passed)
 print('stable_pass: %d, passed now: %d, stable tests not passing now: %d' % (len(stable), len(passed & stable), len(missing)))
